@@ -13,10 +13,9 @@ Section Main.
 Variable sym_hash : list N -> N.
 Variable toks : list atok.
 Variable ns : list pnode.
-Variable c : nat.
 
-Notation inl_spec := (inl_spec sym_hash toks ns c).
-Notation chain_spec := (chain_spec sym_hash toks ns c).
+Notation inl_spec := (inl_spec sym_hash toks ns).
+Notation chain_spec := (chain_spec sym_hash toks ns).
 Notation at_off := (at_off toks).
 Notation dn := (dn ns).
 
@@ -40,17 +39,24 @@ Proof.
   destruct l; try reflexivity; [destruct neg|]; vm_compute in H; discriminate H.
 Qed.
 
-Theorem sim_all : forall e, efrag 3 e = true -> paren_ok e = true ->
-  forall t off, rep e off t -> dn t -> at_off off e -> inl_spec e t /\ chain_spec e t.
+Lemma at_off_nested off lbl b : at_off off (ENested lbl b) -> at_off (off + 2) b.
 Proof.
-  induction e; intros F P t off R D A; try discriminate F; cbn [efrag] in F;
+  intros (pre & post & E & L). cbn [aprint] in E.
+  exists (pre ++ [aop TT_StartExpression; aws]), ([aws; aop TT_EndExpression] ++ post).
+  split; [rewrite E; repeat rewrite <- app_assoc; cbn [app]; repeat rewrite <- app_assoc; reflexivity|rewrite app_length; cbn [length]; lia].
+Qed.
+
+Theorem sim_all : forall e, efrag LV e = true -> paren_ok e = true ->
+  forall t off, rep e off t -> dn t -> at_off off e -> forall c, inl_spec c e t /\ chain_spec c e t.
+Proof.
+  induction e; intros F P t off R D A c; try discriminate F; cbn [efrag] in F;
     repeat (apply andb_true_iff in F; let G := fresh "G" in destruct F as [F G]).
-  - assert (H : inl_spec (ELit l) t) by (eapply case_lit; eauto). split; [exact H|apply chain_of_plain; [reflexivity|exact H]].
-  - assert (H : inl_spec EValue t) by (eapply case_value; eauto). split; [exact H|apply chain_of_plain; [reflexivity|exact H]].
-  - assert (H : inl_spec (EIdent name) t) by (eapply case_ident; eauto). split; [exact H|apply chain_of_plain; [reflexivity|exact H]].
+  - assert (H : inl_spec c (ELit l) t) by (eapply case_lit; eauto). split; [exact H|apply chain_of_plain; [reflexivity|exact H]].
+  - assert (H : inl_spec c EValue t) by (eapply case_value; eauto). split; [exact H|apply chain_of_plain; [reflexivity|exact H]].
+  - assert (H : inl_spec c (EIdent name) t) by (eapply case_ident; eauto). split; [exact H|apply chain_of_plain; [reflexivity|exact H]].
   - (* prefix / suffix *)
     pose proof (paren_ok_un _ _ P) as Px.
-    assert (H : inl_spec (EUn o e) t).
+    assert (H : inl_spec c (EUn o e) t).
     { pose proof (step_un sym_hash toks ns c o e) as S. cbn [rep] in R. destruct (is_prefix o) eqn:Ho.
       - destruct t as [|i d k a| | |]; try contradiction. destruct R as (-> & -> & Rx).
         apply S. apply (IHe F Px a (off + 2) Rx (dn_pre _ _ _ _ D)). eapply at_off_pre; eauto.
@@ -62,7 +68,7 @@ Proof.
     destruct (at_off_binary toks off (EBin o e1 e2) _ _ _ eq_refl A) as [A1 A2].
     cbn [rep] in R. destruct t as [| | |i d k tl tr|]; try contradiction. destruct R as (-> & _ & R1 & R2).
     destruct (dn_bin _ _ _ _ _ D) as [D1 D2].
-    assert (H : inl_spec (EBin o e1 e2) (NBin i (hdef (EBin o e1 e2)) k tl tr)).
+    assert (H : inl_spec c (EBin o e1 e2) (NBin i (hdef (EBin o e1 e2)) k tl tr)).
     { apply step_bin; [apply (IHe1 F P1 _ _ R1 D1 A1)|apply (IHe2 G P2 _ _ R2 D2 A2)]. }
     split; [exact H|apply chain_of_plain; [reflexivity|exact H]].
   - (* && *)
@@ -70,7 +76,7 @@ Proof.
     destruct (at_off_binary toks off (EAnd e1 e2) _ _ _ eq_refl A) as [A1 A2].
     cbn [rep] in R. destruct t as [| | |i d k tl tr|]; try contradiction. destruct R as (-> & _ & R1 & R2).
     destruct (dn_bin _ _ _ _ _ D) as [D1 D2].
-    assert (H : inl_spec (EAnd e1 e2) (NBin i (hdef (EAnd e1 e2)) k tl tr)).
+    assert (H : inl_spec c (EAnd e1 e2) (NBin i (hdef (EAnd e1 e2)) k tl tr)).
     { apply (step_logical sym_hash toks ns c true); [reflexivity|apply (left_not_chainy_and _ _ (paren_ok_children _ P))| |].
       - apply (IHe1 G0 P1 _ _ R1 D1 A1).
       - apply (IHe2 G P2 _ _ R2 D2 A2). }
@@ -80,7 +86,7 @@ Proof.
     destruct (at_off_binary toks off (EOr e1 e2) _ _ _ eq_refl A) as [A1 A2].
     cbn [rep] in R. destruct t as [| | |i d k tl tr|]; try contradiction. destruct R as (-> & _ & R1 & R2).
     destruct (dn_bin _ _ _ _ _ D) as [D1 D2].
-    assert (H : inl_spec (EOr e1 e2) (NBin i (hdef (EOr e1 e2)) k tl tr)).
+    assert (H : inl_spec c (EOr e1 e2) (NBin i (hdef (EOr e1 e2)) k tl tr)).
     { apply (step_logical sym_hash toks ns c false); [reflexivity|apply (left_not_chainy_or _ _ (paren_ok_children _ P))| |].
       - apply (IHe1 G0 P1 _ _ R1 D1 A1).
       - apply (IHe2 G P2 _ _ R2 D2 A2). }
@@ -88,7 +94,7 @@ Proof.
   - (* lists *)
     assert (Hb : exists tk, as_binary (EList k e1 e2) = Some (tk, e1, e2)) by (destruct k; eexists; reflexivity).
     destruct Hb as [tk Hb]. destruct (paren_ok_binary _ _ _ _ Hb P) as [P1 P2].
-    assert (H : inl_spec (EList k e1 e2) t).
+    assert (H : inl_spec c (EList k e1 e2) t).
     { destruct k.
       - destruct (at_off_space toks off _ _ A) as [A1 A2].
         cbn [rep] in R. destruct t as [| | |i d ko tl tr|]; try contradiction. destruct R as (-> & _ & R1 & R2).
@@ -103,7 +109,7 @@ Proof.
     split; [exact H|apply chain_of_plain; [reflexivity|exact H]].
   - (* group *)
     cbn [rep] in R. destruct t as [| | | |b i k a]; try contradiction. destruct b; try contradiction. destruct R as (-> & Rx).
-    assert (H : inl_spec (EGroup e) (NGroup BRound i off a)).
+    assert (H : inl_spec c (EGroup e) (NGroup BRound i off a)).
     { apply step_group. apply (IHe F (paren_ok_group _ P) _ _ Rx (dn_group _ _ _ _ D)). eapply at_off_group; eauto. }
     split; [exact H|apply chain_of_plain; [reflexivity|exact H]].
   - (* conditional *)
@@ -111,7 +117,7 @@ Proof.
     destruct (at_off_binary toks off (ECond neg e1 e2) _ _ _ eq_refl A) as [A1 A2].
     cbn [rep] in R. destruct t as [| | |i d k tl tr|]; try contradiction. destruct R as (-> & _ & R1 & R2).
     destruct (dn_bin _ _ _ _ _ D) as [D1 D2].
-    pose proof (proj1 (IHe1 G0 P1 _ _ R1 D1 A1)) as H1. pose proof (proj1 (IHe2 G P2 _ _ R2 D2 A2)) as H2.
+    pose proof (proj1 (IHe1 G0 P1 _ _ R1 D1 A1 c)) as H1. pose proof (proj1 (IHe2 G P2 _ _ R2 D2 A2 c)) as H2.
     split.
     + intros rj lk cond s ob jb Hc. rewrite (Hc eq_refl). apply step_cond; assumption.
     + apply step_cond_chain; assumption.
@@ -120,10 +126,16 @@ Proof.
     destruct (at_off_binary toks off (EElse e1 e2) _ _ _ eq_refl A) as [A1 A2].
     cbn [rep] in R. destruct t as [| | |i d k tl tr|]; try contradiction. destruct R as (-> & _ & R1 & R2).
     destruct (dn_bin _ _ _ _ _ D) as [D1 D2].
-    pose proof (proj2 (IHe1 G0 P1 _ _ R1 D1 A1)) as H1. pose proof (proj2 (IHe2 G P2 _ _ R2 D2 A2)) as H2.
-    assert (Hch : chain_spec (EElse e1 e2) (NBin i (hdef (EElse e1 e2)) k tl tr)) by (apply step_else_chain; assumption).
+    pose proof (proj2 (IHe1 G0 P1 _ _ R1 D1 A1 c)) as H1. pose proof (proj2 (IHe2 G P2 _ _ R2 D2 A2 c)) as H2.
+    assert (Hch : chain_spec c (EElse e1 e2) (NBin i (hdef (EElse e1 e2)) k tl tr)) by (apply step_else_chain; assumption).
     split; [|exact Hch].
     intros rj lk cond s ob jb Hc. rewrite (Hc eq_refl). apply step_else. exact Hch.
+  - (* nested expression *)
+    cbn [rep] in R. destruct t as [| | | |b i k a]; try contradiction. destruct b; try contradiction. destruct R as (-> & Rx).
+    assert (H : inl_spec c (ENested label e) (NGroup BCurly i off a)).
+    { apply step_nested; [exact G|]. intros c'.
+      apply (IHe G (paren_ok_nested _ _ P) _ _ Rx (dn_group _ _ _ _ D) (at_off_nested _ _ _ A) c'). }
+    split; [exact H|apply chain_of_plain; [reflexivity|exact H]].
 Qed.
 
 End Main.
